@@ -90,6 +90,7 @@ import (
 	"encoding/json"
 	"fmt"
 	"os"
+	"runtime"
 	"testing"
 
 	rt "github.com/akalin/gopar/internal/zzverifrt"
@@ -97,8 +98,11 @@ import (
 
 func TestVerifReplay(t *testing.T) {
 	h := os.Getenv("VERIF_HARNESS")
+	var m0, m1 runtime.MemStats
+	runtime.ReadMemStats(&m0)
 	fails, af, p := rt.RunRegistered(h)
-	out := map[string]interface{}{"harness": h, "assume_failed": af, "fails": fails, "panic": nil}
+	runtime.ReadMemStats(&m1)
+	out := map[string]interface{}{"harness": h, "assume_failed": af, "fails": fails, "panic": nil, "alloc_bytes": m1.TotalAlloc - m0.TotalAlloc}
 	if p != nil {
 		out["panic"] = fmt.Sprint(p)
 	}
@@ -188,17 +192,57 @@ def run_job(job, scratch, tables, timeout_s):
     return dict(job=job, rc=rc, log=log[-4000:], res=res, wall=time.time() - t0)
 
 
+def race_overlay(ov, scratch):
+    """The race detector does not see stores made by assembly.  For -race replays the
+    bulk kernels' Go entry points (regenerated from /repo's current slice_amd64.go)
+    announce their read and write ranges to it; nothing else changes."""
+    src_path = os.path.join(REPO, "gf2p16", "slice_amd64.go")
+    try:
+        src = open(src_path).read()
+    except OSError:
+        return ov
+    pat = re.compile(r"^(func (?:mulByteSliceLE|mulAndAddByteSliceLE)\(c T, in, out \[\]byte, useSSSE3 bool\) \{)$", re.M)
+    if not pat.search(src) or "import (\n" not in src:
+        return ov
+    src = pat.sub(lambda m: m.group(1) + "\n\tverifRaceTouch(in, out)", src)
+    src = src.replace("import (\n", "import (\n\t\"runtime\"\n", 1)
+    src += ("\nfunc verifRaceTouch(in, out []byte) {\n\tif len(in) > 0 {\n\t\truntime.RaceReadRange(unsafe.Pointer(&in[0]), len(in))\n\t}\n"
+            "\tif len(out) > 0 {\n\t\truntime.RaceWriteRange(unsafe.Pointer(&out[0]), len(out))\n\t}\n}\n")
+    dst = os.path.join(scratch, "slice_amd64_race.go")
+    open(dst, "w").write(src)
+    m = json.load(open(ov))
+    m["Replace"][src_path] = dst
+    out = os.path.join(scratch, "overlay_race.json")
+    json.dump(m, open(out, "w"))
+    return out
+
+
 def native_replay(job, cex_path, scratch, extra_env=None):
     pkg = job["pkg"]
     ov = overlay_map(scratch, [pkg])
     env = dict(GOENV, VERIF_REPLAY=cex_path, VERIF_HARNESS=job["harness"])
     env.update(extra_env or {})
+    # jobs that concern concurrent workers are replayed under the race detector: a
+    # counterexample of the footprint obligations is a data race natively
+    race = ["-race"] if job.get("race") else []
+    if race:
+        env["CGO_ENABLED"] = "1"
+        ov = race_overlay(ov, scratch)
+    cmd = ["go", "test", "-vet=off", "-count=1"] + race + ["-overlay", ov, "-run", "TestVerifReplay", "-v", "./" + pkg]
+    if not race:
+        # an allocation the engine treats as out of memory must not take the machine down:
+        # 16 GiB of address space for the test process
+        cmd = ["sh", "-c", "ulimit -v 16777216; exec \"$@\"", "sh"] + cmd
     try:
-        r = sh(["go", "test", "-vet=off", "-count=1", "-overlay", ov, "-run", "TestVerifReplay", "-v", "./" + pkg],
-               cwd=REPO, env=env, timeout=900)
+        r = sh(cmd, cwd=REPO, env=env, timeout=900)
     except subprocess.TimeoutExpired:
         return dict(error="native replay timed out")
     m = re.search(r"REPLAY-RESULT (\{.*\})", r.stdout)
+    if race and "WARNING: DATA RACE" in r.stdout:
+        res = json.loads(m.group(1)) if m else dict(harness=job["harness"], assume_failed=False, fails=[])
+        res["fails"] = (res.get("fails") or []) + ["DATA RACE reported by the race detector (native)"]
+        res["panic"] = res.get("panic") or "DATA RACE: " + r.stdout[r.stdout.index("WARNING: DATA RACE"):][:400]
+        return res
     if not m:
         # a crash outside recover (fatal error, out of memory, ...) also counts as a panic
         if "panic:" in r.stdout or "fatal error:" in r.stdout:
@@ -227,6 +271,8 @@ def reproduced(cex, rr):
     if rr.get("error") or rr.get("assume_failed"):
         return False
     if cex["kind"] == "panic":
+        if "huge allocation" in cex["label"] and (rr.get("alloc_bytes") or 0) >= 1 << 28:
+            return True  # natively the allocation succeeded: measured instead of crashing
         return rr.get("panic") is not None
     if cex["kind"] == "assert" and cex["label"].startswith(("cut-", "asm-pre", "no-overflow", "dispatch:", "table-contract")):
         return bool(rr.get("fails")) or rr.get("panic") is not None
